@@ -56,7 +56,9 @@ type Behaviour struct {
 		Maxblocks int  `json:"maxblocks"`
 		Hasprev   bool `json:"hasprev"`
 		Mode      string `json:"mode"` // pp | fep
-		L1shape   []int  `json:"l1shape"` // L1 block of each of the 5 info leaves (default one per block)
+		L1shape   []int  `json:"l1shape"` // L1 block of each info leaf (default one per block)
+		L1steps   string `json:"l1steps"` // L1 history, one info leaf per letter (m: mainnet deposit, o: deposit on the other rollup + verification)
+		L1claims  [][]int `json:"l1claims"` // claim pool: [mainnet, deposit number, index of the info leaf it is made against]
 	} `json:"cfg"`
 	Steps []Step `json:"steps"`
 }
@@ -451,7 +453,10 @@ func runOne(tw *tr.W, root string, idx int, b Behaviour, seed int64) error {
 	ctx := context.Background()
 	d := names.NewDict()
 	w := &world{seed: seed, dict: d, l1exit: names.NewAppendTree(d), otherLT: names.NewAppendTree(d), rollupT: names.NewUpdTree(d),
-		infoT: names.NewAppendTree(d), l2exit: names.NewAppendTree(d), finalized: 5, l1shape: b.Cfg.L1shape}
+		infoT: names.NewAppendTree(d), l2exit: names.NewAppendTree(d), finalized: 5, l1shape: b.Cfg.L1shape, l1steps: b.Cfg.L1steps, l1claims: b.Cfg.L1claims}
+	if w.l1steps != "" {
+		w.finalized = uint64(len(w.l1steps))
+	}
 	if w.l1store, err = l1infotreesync.NewVerifL1InfoTreeSync(filepath.Join(dir, "l1info.sqlite")); err != nil {
 		return err
 	}
